@@ -475,7 +475,15 @@ pub fn c08(ctx: &mut Ctx) -> R {
     let cut = if !(300..400).contains(&status) && ctx.chance(1, 3) { Some(ctx.range(0, head.len() - 1)) } else { None };
     let mut rx = match reach_body_rx_cut(use_call, method, head.as_bytes(), cut) {
         Ok(v) => v,
-        Err(e) => fail!("FOREIGN", "", "cannot reach RecvBody: {}", e),
+        Err(e) => {
+            if e.contains("no RecvBody state") || e.contains("no body state") {
+                // by construction a non-empty body follows (N >= 1 or close-delimited, status and
+                // method that have one)
+                set_observed(true);
+                fail!("C08.no_body_state", "", "{} answered with [{}]: a body follows but the flow does not enter the body state", method, show_bytes(head.as_bytes()));
+            }
+            fail!("FOREIGN", "", "cannot reach RecvBody: {}", e)
+        }
     };
     set_observed(true);
     let seed = ctx.draw(1 << 32);
